@@ -340,6 +340,16 @@ def evaluate(prop, res):
         cov["ast_differing_bodies"] = ast.get("differ_count", 0)
         cov["ast_untranslatable_bodies"] = ast.get("untranslatable_count", 0)
 
+    # ---- structural comparison of Debug impl / builder / enum conversions with the model --------------------------------
+    sc = res.get("struct_cmp", {})
+    want_what = {"C19": "debug", "C13": "builder", "C14": "builder", "C07": "enum"}.get(prop)
+    if want_what:
+        cov["structure_equal"] = sc.get("equal", 0)
+        for (name, what, real, want) in [tuple(x) for x in sc.get("differ", [])]:
+            if what == want_what or what == "dump":
+                add("correspondence", "the %s part of the expansion differs from what the model generates" % what,
+                    {"declaration": name, "real": real, "model": want})
+
     # ---- declarations rustc accepted but whose runner code does not compile ------------------------------------------
     for name, errs in res.get("runner_dropped", {}).items():
         d = table.get(name)
